@@ -20,14 +20,15 @@ pub(crate) fn push(
         Ok(_) => {
             let mut new_variables = HashMap::new();
             for key in copy {
-                let value = variables.remove(key);
-                new_variables.insert(key, value);
+                if let Some(value) = variables.remove(key) {
+                    new_variables.insert(key, value);
+                }
             }
 
             variables.clear();
 
             for (key, value) in new_variables {
-                variables.insert(key.to_string(), value.unwrap());
+                variables.insert(key.to_string(), value);
             }
 
             Ok(())
@@ -55,8 +56,9 @@ pub(crate) fn pop(
                         Some(old_variables) => {
                             let mut new_variables = HashMap::new();
                             for key in copy {
-                                let value = variables.remove(key);
-                                new_variables.insert(key, value);
+                                if let Some(value) = variables.remove(key) {
+                                    new_variables.insert(key, value);
+                                }
                             }
 
                             variables.clear();
@@ -66,7 +68,7 @@ pub(crate) fn pop(
                             }
 
                             for (key, value) in new_variables {
-                                variables.insert(key.to_string(), value.unwrap());
+                                variables.insert(key.to_string(), value);
                             }
 
                             Ok(None)
